@@ -15,6 +15,11 @@ TRUSTED_BASE = [
     "the same clauses (independent direct-sum reference burg_ref, written in the oracle)",
     "container / dtype cases (int64, int8, list, list of complex): same (a, rho, k) as for the float64 array at 1e-12; the float64 result "
     "itself is checked against the reference by the sibling 'burg' case",
+    "re-use histories (burg_history): the configuration an object is documented to hold after a sequence of assignments is replayed on a "
+    "plain dict in the oracle (last assigned value of criteria / ar_order / data / NFFT / sampling / scale_by_freq); .ar/.rho/.reflection "
+    "after every p() / p.run() / .psd read are required equal to arburg(current data, current order, current criteria) at 1e-12 (same "
+    "code path: 0 observed on the unchanged tree), the final state goes through the same clauses as a fresh object, and the final psd "
+    "is compared with a fresh object of the final configuration at 1e-12 (0 observed)",
 ]
 PARTIAL = []   # stability: C13.burg_stable (closed disc for |k_i| <= 1, open disc when all |k_i| < 1)
 ASSUMPTIONS = ["non-degenerate prediction error := conditioning >= 1e-9, where conditioning = min over the stages k of rho_k/rho_0 and of the "
@@ -32,7 +37,12 @@ ASSUMPTIONS = ["non-degenerate prediction error := conditioning >= 1e-9, where c
                "N+1 are correspondence cases: ValueError in code and model)"]
 RULE = ("real/complex data (noise, tones in noise, clean tones, AR(2)/AR(4) processes, integer, zero-interleaved integer, trends) of length "
         "4..24 (orders <= 6) exact / ..200 float x orders 1..min(N-2,30), plus orders N-2 and N-1 for N 3..14, x criteria in {None, AIC, "
-        "AICc, KIC, FPE, AKICc, MDL}; function and class entry point (array, list); non-trivial = returned model has len(a) >= 2")
+        "AICc, KIC, FPE, AKICc, MDL}; function and class entry point (array, list); non-trivial = returned model has len(a) >= 2; "
+        "re-use histories on ONE pburg object (AR(2)/AR(4)/tone/noise records of length 20..100, orders 2..16): run once (criterion "
+        "usually stops early), then 1-2 rounds that assign every subset of {criteria (plain attribute; None or a name), ar_order (same / "
+        "other), data (same / other realisation / other length / other kind, array or list), NFFT, sampling, scale_by_freq} in random "
+        "order, optionally interleaved with a second pburg object, a rejected ar_order and a failing run on too-short data, each round "
+        "ended by p() / p.run() / a .psd read; all clauses on the final configuration")
 
 CRITS = ["AIC", "AICc", "KIC", "FPE", "AKICc", "MDL"]
 
@@ -319,6 +329,160 @@ def oracle_container(p):
     return out
 
 
+HIST_ATTRS = ["criteria", "ar_order", "data", "NFFT", "sampling", "scale_by_freq"]
+
+
+def _hist_replay(p, upto=None):
+    """the configuration the object is documented to hold: last assigned value of every attribute (plain dict, no library code)"""
+    st = {"data": 0, "ar_order": p["order"], "criteria": p["crit"], "NFFT": p["NFFT"], "sampling": 1.0, "scale_by_freq": False}
+    for op in p["ops"][:upto]:
+        if op[0] in st:
+            st[op[0]] = op[1]
+    return st
+
+
+def _hist_final(p):
+    st = _hist_replay(p)
+    return {"x": np.asarray(p["datas"][st["data"]]), "order": st["ar_order"], "crit": st["criteria"], "q": p.get("q", 1),
+            "dkind": p["dkind"]}
+
+
+def oracle_history(p):
+    """ONE pburg object through a history of assignments and runs; after every run the object must hold the model of its CURRENT
+    configuration (data, ar_order, criteria), and the final state satisfies every clause of the property"""
+    sp = _sp()
+    datas = [np.asarray(d) for d in p["datas"]]
+    st = {"data": 0, "ar_order": p["order"], "criteria": p["crit"], "NFFT": p["NFFT"], "sampling": 1.0, "scale_by_freq": False}
+    P = sp.pburg(datas[0].copy(), p["order"], criteria=p["crit"], NFFT=p["NFFT"])
+
+    def check(where):
+        x = datas[st["data"]]
+        r0 = float(np.mean(np.abs(x) ** 2))
+        a, rho, k = sp.arburg(x, st["ar_order"], st["criteria"])
+        a, k = c(a), c(k)
+        if P.ar is None or P.reflection is None or P.rho is None:
+            return ["%s: pburg holds no model (.ar/.rho/.reflection None)" % where]
+        pa, pk = c(P.ar), c(P.reflection)
+        conf = "data #%d (N=%d, %s), ar_order %d, criteria %s" % (st["data"], len(x), "complex" if np.iscomplexobj(x) else "real",
+                                                                  st["ar_order"], st["criteria"])
+        if pa.shape != a.shape or pk.shape != k.shape:
+            return ["%s: the re-used pburg holds %d AR / %d reflection coefficients, arburg on its current configuration (%s) gives "
+                    "%d / %d" % (where, len(pa), len(pk), conf, len(a), len(k))]
+        # same code path as arburg: 0 difference observed on the unchanged tree (quick seeds 0-4 + thorough), tolerance 1e-12
+        if rel(pa, a) > 1e-12 or rel(pk, k) > 1e-12 or not abs(P.rho - rho) <= 1e-12 * r0:
+            return ["%s: .ar/.rho/.reflection of the re-used pburg differ from arburg on its current configuration (%s): "
+                    "%.2e / %.2e / %.2e" % (where, conf, rel(pa, a), abs(P.rho - rho) / r0, rel(pk, k))]
+        return []
+
+    for n, op in enumerate(p["ops"]):
+        name = op[0]
+        if name in ("call", "run", "psd"):
+            if name == "call":
+                P()
+            elif name == "run":
+                P.run()
+            else:
+                P.psd                                   # noqa: B018 - the documented lazy evaluation
+            bad = check("step %d (%s) of %s" % (n, name, _hist_str(p)))
+            if bad:
+                return bad
+        elif name == "data":
+            st["data"] = op[1]
+            P.data = _as_container(datas[op[1]].copy(), op[2])
+        elif name == "criteria":
+            st["criteria"] = op[1]
+            P.criteria = op[1]
+        elif name == "ar_order":
+            st["ar_order"] = op[1]
+            P.ar_order = op[1]
+        elif name == "NFFT":
+            P.NFFT = op[1]
+            st["NFFT"] = int(P.NFFT)                    # None / 'nextpow2' are resolved by the setter
+        elif name == "sampling":
+            st["sampling"] = op[1]
+            P.sampling = op[1]
+        elif name == "scale_by_freq":
+            st["scale_by_freq"] = op[1]
+            P.scale_by_freq = op[1]
+        elif name == "other":                           # a second object is fitted in between (no state is shared between objects)
+            Q = sp.pburg(datas[op[1]].copy(), op[2], criteria=op[3], NFFT=32)
+            Q()
+        elif name == "bad_order":                       # a rejected assignment leaves the configuration as it was
+            try:
+                P.ar_order = -1
+            except Exception:                           # noqa: BLE001
+                pass
+            else:
+                P.ar_order = st["ar_order"]
+        elif name == "fail_run":                        # a run that fails (record shorter than the order), then the record is restored
+            P.data = datas[st["data"]][: max(st["ar_order"] - 1, 1)].copy()
+            try:
+                P()
+            except Exception:                           # noqa: BLE001
+                pass
+            P.data = datas[st["data"]].copy()
+    fin = _hist_final(p)
+    x = fin["x"]
+    out = []
+    if fin["crit"] is None and len(c(P.ar)) != fin["order"]:
+        out.append("pburg after the history holds an order-%d model for ar_order %d, criteria None" % (len(c(P.ar)), fin["order"]))
+    # psd of the final state against a fresh object of the final configuration (0 difference observed; tolerance 1e-12)
+    F = sp.pburg(x.copy(), fin["order"], criteria=fin["crit"], NFFT=st["NFFT"], sampling=st["sampling"], scale_by_freq=st["scale_by_freq"])
+    F()
+    ps, fs = np.asarray(P.psd), np.asarray(F.psd)
+    if ps.shape != fs.shape:
+        out.append("psd of the re-used object has %d points, of a fresh object of the same configuration %d" % (ps.size, fs.size))
+    elif not np.all(np.abs(ps - fs) <= 1e-12 * np.abs(fs)):
+        out.append("psd of the re-used object differs from a fresh object of the same configuration: %.2e (per bin, relative)" % float(
+            np.max(np.abs(ps - fs) / np.abs(fs))))
+    if rel(c(F.ar), c(P.ar)) > 1e-12 if c(F.ar).shape == c(P.ar).shape else True:
+        out.append("model of the re-used object differs from a fresh object of the same configuration (%d vs %d coefficients)" % (
+            len(c(P.ar)), len(c(F.ar))))
+    return out + clauses(fin, P.ar, P.rho, P.reflection, who="pburg after the history")
+
+
+def _hist_str(p):
+    return "pburg(order %d, criteria %s): %s" % (p["order"], p["crit"], " ; ".join(
+        op[0] if len(op) == 1 else "%s=%s" % (op[0], "#%d" % op[1] if op[0] in ("data", "other") else op[1]) for op in p["ops"]))
+
+
+def _key_history(p):
+    return "H|" + _key(dict(_hist_final(p), x=np.asarray(p["datas"][0]))) + "|" + "|".join(str(op[0])[:2] + str(op[1] if len(op) > 1 else "")
+                                                                                       for op in p["ops"])
+
+
+def _tags_history(p):
+    ops = p["ops"]
+    trig = [i for i, op in enumerate(ops) if op[0] in ("call", "run", "psd")]
+    last = {op[0] for op in ops[trig[-2] + 1: trig[-1]]} if len(trig) >= 2 else set()
+    fin = _hist_final(p)
+    t = ["history-rounds:%d" % (len(trig) - 1), "history-trigger:" + ops[trig[-1]][0],
+         "history-last-round:" + ("+".join(a for a in HIST_ATTRS if a in last) or "nothing"),
+         "history-final-crit:%s" % fin["crit"], "complex" if np.iscomplexobj(fin["x"]) else "real", "data:" + p["dkind"]]
+    for e in ("other", "bad_order", "fail_run"):
+        if any(op[0] == e for op in ops):
+            t.append("history-with:" + e)
+    # the first run stopped early (q < p) and the last round asks for the plain model without touching data / ar_order
+    try:
+        q0 = len(c(_sp().arburg(np.asarray(p["datas"][0]), p["order"], p["crit"])[0]))
+    except Exception:               # noqa: BLE001
+        q0 = -1
+    if p["crit"] is not None:
+        t.append("history-first-run:" + ("q<p" if q0 < p["order"] else "q=p"))
+    prev = _hist_replay(p, trig[-2] + 1 if len(trig) >= 2 else 0)["criteria"]
+    if "criteria" in last and not ({"data", "ar_order"} & last):
+        t.append("history-criteria-only:%s->%s" % ("None" if prev is None else "crit", "None" if fin["crit"] is None else "crit"))
+    return t
+
+
+def _nontrivial_history(p):
+    fin = _hist_final(p)
+    try:
+        return len(c(_sp().arburg(fin["x"], fin["order"], fin["crit"])[0])) >= 2
+    except Exception:               # noqa: BLE001
+        return False
+
+
 def _key(p):
     x = np.asarray(p["x"])
     return "%d|%d|%s|%s|%d" % (len(x), p["order"], p["crit"], np.iscomplexobj(x), hash(x.tobytes()) & 0xFFFFFF)
@@ -372,9 +536,12 @@ KINDS = {
                  "tags": lambda p: ["rejected-order:" + ("0" if p["order"] == 0 else "N+1")]},
     "burg_container": {"oracle": oracle_container, "key": _key, "nontrivial": lambda p: p["order"] >= 2,
                        "tags": lambda p: ["container:" + ("complex" if np.iscomplexobj(p["x"]) else "real"), "container-data:" + p["dkind"]]},
+    # ONE pburg object re-used through assignments of plain attributes / documented properties and repeated runs
+    "burg_history": {"oracle": oracle_history, "key": _key_history, "nontrivial": _nontrivial_history, "tags": _tags_history},
 }
 NO_DEGEN = {"burg_clean", "burg_class_clean"}
-NO_VARY = {"burg_err", "burg_container"}     # container cases need integer-valued samples (amplitude variants are not)
+NO_VARY = {"burg_err", "burg_container",     # container cases need integer-valued samples (amplitude variants are not)
+           "burg_history"}                   # several records per case
 
 
 def _well_conditioned(x, order):
@@ -434,6 +601,68 @@ def _pair(kind, p, j, every=1):
     yield (kind, p)
     if j % every == 0:
         yield ("burg_class" + kind[4:], dict(p, aslist=(j // every) % 3))
+
+
+def _gen_history(nrng, i):
+    """one re-use history; the LAST round assigns the subset number i % 64 of HIST_ATTRS (every combination is visited), earlier rounds
+    a random subset; values: criteria None (1/2) or a name, ar_order same (0.3) / other, data any of three records as array / list /
+    list of Python numbers, NFFT another value, sampling, scale_by_freq"""
+    dk = ["ar2", "ar4", "ar4", "tone", "ar2", "noise", "ar4"][i % 7]
+
+    def rec(N, cplx):
+        return _ar(nrng, N, cplx, dk) if dk in AR_COEF else _mk(nrng, N, cplx, dk, False)
+    cplx = bool(nrng.integers(0, 2))
+    N0 = int(nrng.integers(24, 81))
+    datas = [rec(N0, cplx), rec(N0, cplx if nrng.random() < 0.67 else not cplx), rec(int(nrng.integers(20, 101)), bool(nrng.integers(0, 2)))]
+    omax = min(min(len(d) for d in datas) - 3, 16)
+    if not all(in_domain(d, omax) for d in datas):
+        return None
+    order = int(nrng.integers(min(6, omax), omax + 1))
+    crit = None if i % 8 == 7 else CRITS[(i // 8 + i) % len(CRITS)]
+    nfft_all = [32, 63, 64, 128, 256, None, "nextpow2"]     # arma2psd needs NFFT > order (orders <= 16 here)
+    cur = {"NFFT": 64, "ar_order": order}
+    ops = [[["call"], ["run"], ["psd"]][i % 3]]
+    rounds = 1 + (i // 64) % 2
+    for r in range(rounds):
+        mask = i % 64 if r == rounds - 1 else int(nrng.integers(0, 64))
+        S = [a for j, a in enumerate(HIST_ATTRS) if mask >> j & 1]
+        S = [S[j] for j in nrng.permutation(len(S))]
+        for extra in ("other", "bad_order", "fail_run"):
+            if nrng.random() < 0.15:
+                if extra == "other":
+                    ops.append(["other", int(nrng.integers(0, 3)), int(nrng.integers(2, omax + 1)), [None, "AIC", "MDL"][int(nrng.integers(0, 3))]])
+                else:
+                    ops.append([extra])
+        fresh_psd = False           # a property setter that marks the stored psd as outdated was used with a new value
+        for a in S:
+            if a == "criteria":
+                ops.append([a, None if nrng.random() < 0.5 else CRITS[int(nrng.integers(0, len(CRITS)))]])
+            elif a == "ar_order":
+                v = cur["ar_order"] if nrng.random() < 0.3 else int(nrng.integers(2, omax + 1))
+                cur["ar_order"] = v
+                ops.append([a, v])
+                fresh_psd = True
+            elif a == "data":
+                ops.append([a, int(nrng.integers(0, 3)), int(nrng.integers(0, 3))])
+                fresh_psd = True
+            elif a == "NFFT":
+                v = nfft_all[int(nrng.integers(0, len(nfft_all)))]
+                while v == cur["NFFT"]:
+                    v = nfft_all[int(nrng.integers(0, len(nfft_all)))]
+                if isinstance(v, int) and isinstance(cur["NFFT"], int):
+                    fresh_psd = True
+                cur["NFFT"] = v
+                ops.append([a, v])
+            elif a == "sampling":
+                ops.append([a, [1.0, 2.0, 0.5, 1000.0, 8][int(nrng.integers(0, 5))]])
+            else:
+                ops.append([a, bool(nrng.integers(0, 2))])
+        # a .psd read recomputes only when a property setter has marked the estimate as outdated; criteria is a plain attribute, so
+        # the explicit p() / p.run() are the triggers otherwise
+        ops.append([["call"], ["run"], ["psd"]][int(nrng.integers(0, 3))] if fresh_psd else [["call"], ["run"]][int(nrng.integers(0, 2))])
+    p = {"datas": datas, "order": order, "crit": crit, "NFFT": 64, "ops": ops, "dkind": dk}
+    p["q"] = int(nrng.integers(1, max(_hist_replay(p)["ar_order"], 1) + 1))
+    return p
 
 
 def gen(rng, nrng, tier):
@@ -531,3 +760,8 @@ def gen(rng, nrng, tier):
             continue
         p = {"x": x, "order": order, "crit": crit, "exact": False, "dkind": which, "q": int(nrng.integers(1, order + 1))}
         yield from _pair("burg", p, i, 1 if quick else 2)
+    # (last, so that the cases above are the same as before for a given seed)
+    for i in range(128 if quick else 768):      # re-use histories on one pburg object: every subset of the attributes, 1-2 rounds
+        p = _gen_history(nrng, i)
+        if p is not None:
+            yield ("burg_history", p)
